@@ -58,7 +58,11 @@ class Lexer(object):
 
     @TOKEN(r"[\-\+]?\d+")
     def t_INT(self, t):
-        t.value = int(t.value)
+        try:
+            t.value = int(t.value)
+        except ValueError as ex:
+            # e.g. more digits than the interpreter's integer string conversion limit
+            raise SyntaxError("Invalid integer at position {0}: {1}".format(t.lexpos, ex))
         return t
 
     @TOKEN(r'("(\\.|[^"\\])*")|(\'(\\.|[^\'\\])*\')')
